@@ -5,14 +5,16 @@ NOTES = ("All checks are property-based tests (pgregory.net/rapid v1.3.0 generat
 ENGINES = [
     {"name": "kvx", "path": "harness/kvx", "serves_properties": ["C06", "C07", "C11", "C12", "C13", "C16", "C17"],
      "kind_free_text": "real kv.DB / Pebble KV driven by rapid generators against the sequential reference model in harness/model"},
-    {"name": "leaderx", "path": "harness/leaderx", "serves_properties": ["C07", "C08", "C14", "C15"],
+    {"name": "leaderx", "path": "harness/leaderx", "serves_properties": ["C07", "C08", "C13", "C14", "C15", "C17"],
      "kind_free_text": "real LeaderController (RF=1, real WAL and Pebble through wrapping factories with gates) driven by rapid state machines"},
     {"name": "clusterx", "path": "harness/clusterx", "serves_properties": ["C01", "C02", "C03", "C04", "C05", "C06"],
      "kind_free_text": "3-5 real storage nodes + the real coordinator ShardController in one process over a harness-owned wire; generated fault programs; oracles over the recorded history"},
-    {"name": "clientx", "path": "harness/clientx", "serves_properties": ["C20", "C18"],
+    {"name": "clientx", "path": "harness/clientx", "serves_properties": ["C20", "C18", "C17"],
      "kind_free_text": "the real public client over loopback gRPC against scripted fake OxiaClient servers"},
-    {"name": "coordx", "path": "harness/coordx", "serves_properties": ["C18", "C19"],
+    {"name": "coordx", "path": "harness/coordx", "serves_properties": ["C05", "C18", "C19"],
      "kind_free_text": "real ApplyClusterChanges / ensemble selector / load balancer / Coordinator over stub nodes, driven by rapid generators"},
+    {"name": "e2ex", "path": "harness/e2ex", "serves_properties": ["C14"],
+     "kind_free_text": "the real public client against a real standalone server (loopback, on-disk), generated scenarios with real timers"},
     {"name": "walx", "path": "harness/walx", "serves_properties": ["C09", "C10"],
      "kind_free_text": "rapid state machine + crash/corruption image generator over the real WAL against a list model"},
 ]
